@@ -192,13 +192,18 @@ RfcAmbiguous(S, rr, apex) ==
 AllowedRR(S, rr, apex) == {PseudoRR(S, rr, apex), ProseRR(S, rr, apex)}
 
 \* All end states of applying the update section in order; `t` records whether some single RR
-\* changed the zone on the way (RFC 2136 3.6 "if any Update RR caused a zone change").
+\* changed the zone on the way (RFC 2136 3.6 "if any Update RR caused a zone change"), `c`
+\* ("clean") whether every SOA the update installed was strictly greater (RFC 1982) than the
+\* serial it replaced -- FALSE only if an SOA at the undefined distance 2^31 was installed, which
+\* the pseudocode reading admits and the prose reading does not.
 RECURSIVE ApplyFrom(_, _, _, _)
 ApplyFrom(Ts, upd, i, apex) ==
     IF i > Len(upd) THEN Ts
-    ELSE ApplyFrom(UNION {{[s |-> n, t |-> (T.t \/ n # T.s)] : n \in AllowedRR(T.s, upd[i], apex)} : T \in Ts},
+    ELSE ApplyFrom(UNION {{[s |-> n, t |-> (T.t \/ n # T.s),
+                            c |-> (T.c /\ (n.ser = T.s.ser \/ SerialGT(n.ser, T.s.ser)))]
+                           : n \in AllowedRR(T.s, upd[i], apex)} : T \in Ts},
                    upd, i + 1, apex)
-ApplyAll(S, upd, apex) == ApplyFrom({[s |-> S, t |-> FALSE]}, upd, 1, apex)
+ApplyAll(S, upd, apex) == ApplyFrom({[s |-> S, t |-> FALSE, c |-> TRUE]}, upd, 1, apex)
 
 -----------------------------------------------------------------------------
 (* Whole message: the set of outcomes the specification allows.              *)
@@ -212,12 +217,12 @@ ApplyAll(S, upd, apex) == ApplyFrom({[s |-> S, t |-> FALSE]}, upd, 1, apex)
 (*                increments, "iff the content changed" does not; both pass  *)
 (*   lenient  TRUE for an outcome that is accepted although the strict RFC   *)
 (*         reading rejects it (see PreValueSubsetOnly)                       *)
-Rejects(S, codes) == {[rc |-> c, rrs |-> S.rrs, adv |-> "no", floor |-> S.ser, lenient |-> FALSE] : c \in codes}
+Rejects(S, codes) == {[rc |-> c, rrs |-> S.rrs, adv |-> "no", floor |-> S.ser, clean |-> TRUE, lenient |-> FALSE] : c \in codes}
 
 Accepts(S, m, apex, len) ==
     {[rc |-> "NOERROR", rrs |-> T.s.rrs,
       adv |-> IF T.s # S THEN "must" ELSE IF T.t THEN "may" ELSE "no",
-      floor |-> T.s.ser, lenient |-> len] : T \in ApplyAll(S, m.upd, apex)}
+      floor |-> T.s.ser, clean |-> T.c, lenient |-> len] : T \in ApplyAll(S, m.upd, apex)}
 
 Outcomes(S, m, apex) ==
     LET pe == PrereqErrors(S, m.pre, apex)
@@ -233,11 +238,22 @@ Outcomes(S, m, apex) ==
 SerialFits(S, o, ser) ==
     CASE o.adv = "no"   -> ser = S.ser
       [] o.adv = "may"  -> ser = S.ser \/ SerialGT(ser, S.ser)
-      \* (when the update itself installed a higher SOA -- floor # old serial -- the result is
-      \* judged against the installed serial only: a server that increments once more, or an
-      \* installed serial 2^31 - 1 ahead, can end at a distance from the old serial that RFC 1982
-      \* leaves undefined)
-      [] OTHER          -> SerialGE(ser, o.floor) /\ (SerialGT(ser, S.ser) \/ o.floor # S.ser)
+      \* "must": the content changed, the serial has to have strictly advanced.
+      \*  * no SOA installed by the update (floor = old serial): ser > old, nothing else.
+      \*  * the update installed an SOA (floor # old): ser >= floor, and against the old serial
+      \*    - ser > old, or
+      \*    - the distance is exactly 2^31, which RFC 1982 leaves undefined ("advanced" cannot be
+      \*      refuted: an installed serial 2^31 - 1 ahead plus the server's own increment), or
+      \*    - ser is behind old, but only because RFC 2136 itself prescribes it: every installed
+      \*      SOA was strictly greater than the one it replaced (clean) and the chain of them ends
+      \*      at a serial that is not ahead of old (RFC 1982 order is not transitive).
+      \*    A serial strictly BEHIND the old one in any other way is a violation: in particular an
+      \*    SOA at distance 2^31 that is installed (pseudocode reading) and then incremented.
+      [] OTHER          -> /\ SerialGE(ser, o.floor)
+                           /\ \/ SerialGT(ser, S.ser)
+                              \/ /\ o.floor # S.ser
+                                 /\ \/ SerialUndefined(S.ser, ser)
+                                    \/ (o.clean /\ ~SerialGT(o.floor, S.ser))
 
 Realises(S, o, rc, rrs, ser) == rc = o.rc /\ rrs = o.rrs /\ SerialFits(S, o, ser)
 
